@@ -24,6 +24,7 @@ type Op struct {
 	Low   uint64        `json:"low,omitempty"`
 	High  uint64        `json:"high,omitempty"`
 	Keys  []string      `json:"keys,omitempty"`
+	Variants []int `json:"variants,omitempty"` // import: per key 0 value+children, 1 value, 2 children, 3 nothing
 	D     time.Duration `json:"d,omitempty"`
 	Task  int           `json:"task,omitempty"`
 	// Abandon: the caller gives up on this mutation - 1: its context is already cancelled,
@@ -127,6 +128,16 @@ func genSeqPlan(prop string, seed uint64, tier string) *Plan {
 			}
 		case "roundtrip", "removekeys", "import":
 			op.Keys = subset()
+			if op.Kind == "import" {
+				// what a hand-over carries for a key differs: value and children, only one of them, or nothing at all
+				for range op.Keys {
+					if p.Backend == "sqlite" {
+						op.Variants = append(op.Variants, pick(r, 0, 0, 1, 2))
+					} else {
+						op.Variants = append(op.Variants, pick(r, 0, 0, 1, 2, 3))
+					}
+				}
+			}
 		}
 		p.Ops = append(p.Ops, op)
 	}
@@ -273,21 +284,43 @@ func (e *seqExec) step(i int, op Op) bool {
 	case "import":
 		// import a fixed payload over whatever is there
 		var vals []*protocol.KVTransfer
-		for j, key := range op.Keys {
-			vals = append(vals, &protocol.KVTransfer{SimpleValue: []byte(fmt.Sprintf("imp%d.%d", i, j)), PrefixChildren: [][]byte{[]byte("x"), []byte(fmt.Sprintf("i%d", i))}})
-			_ = key
+		variant := func(j int) int {
+			if j < len(op.Variants) {
+				return op.Variants[j]
+			}
+			return 0
+		}
+		for j := range op.Keys {
+			t := &protocol.KVTransfer{}
+			if v := variant(j); v == 0 || v == 1 {
+				t.SimpleValue = []byte(fmt.Sprintf("imp%d.%d", i, j))
+			}
+			if v := variant(j); v == 0 || v == 2 {
+				t.PrefixChildren = [][]byte{[]byte("x"), []byte(fmt.Sprintf("i%d", i))}
+			}
+			vals = append(vals, t)
 		}
 		if err := e.b.KV.Import(ctx, bytesOf(op.Keys), vals); err != nil {
 			e.fail(op.Kind, "import-error", "op %d Import(%q) failed: %v", i, op.Keys, err)
 			return false
 		}
 		for j, key := range op.Keys {
-			m.Put(key, fmt.Sprintf("imp%d.%d", i, j))
-			if m.Children[key] == nil {
-				m.Children[key] = map[string]bool{}
+			v := variant(j)
+			switch {
+			case v == 0 || v == 1:
+				m.Put(key, fmt.Sprintf("imp%d.%d", i, j))
+			case e.b.Kind != "sqlite":
+				// memory / append-only log store whatever the transfer carries as the simple value, also "nothing";
+				// SQLite leaves the value alone when the transfer has other content
+				m.Delete(key)
 			}
-			m.Children[key]["x"] = true
-			m.Children[key][fmt.Sprintf("i%d", i)] = true
+			if v == 0 || v == 2 {
+				if m.Children[key] == nil {
+					m.Children[key] = map[string]bool{}
+				}
+				m.Children[key]["x"] = true
+				m.Children[key][fmt.Sprintf("i%d", i)] = true
+			}
 			if e.b.Kind != "sqlite" {
 				// memory / append-only log store the transferred lease token (0 here) over
 				// whatever was there; SQLite only overrides with a non-zero token. The
